@@ -64,7 +64,7 @@ def r17_1(ctx):
     p0 = sniff.params[0]
     opens = [c for c in walk_own(sniff.node) if isinstance(c, ast.Call) and norm(c.func) == "open"]
     reads_magic = False
-    from ..core import const_fold, resolve_expr, with_str_consts
+    from ..core import const_fold, resolve_expr, with_str_consts, inline_callable_aliases, sink_into_branches, desugar_ifexp
 
     sn_ = with_str_consts(sniff)
     for r in walk_own(sn_.node):
@@ -88,6 +88,8 @@ def r17_1(ctx):
     for f in repo.all_funcs():
         if f.module.name in ("gaftools.gfa", "gaftools.utils", "gaftools.__main__", "gaftools.timer"):
             continue
+        if any(isinstance(x, ast.IfExp) or (isinstance(x, ast.Assign) and norm(x.value) in ("open", "gzip.open", "libcbgzf.BGZFile", "BGZFile")) for x in walk_own(f.node)):
+            f = inline_callable_aliases(sink_into_branches(desugar_ifexp(f)))  # `opener = A if gz else B; opener(path)`
         for c in walk_own(f.node):
             if not isinstance(c, ast.Call):
                 continue
